@@ -13,12 +13,12 @@ func fmtPipfile() *format {
 		id:   "pipfilelock",
 		path: "Pipfile.lock",
 		pool: []rec{
-			{Name: "requests", Version: "2.31.0", Tag: "plain"},
+			{Name: "requests", Version: "12.31.0", Tag: "plain"},
 			{Name: "zope.interface", Version: "6.0", Tag: "dotted-name"},
 			{Name: "typing-extensions", Version: "4.7.1", Tag: "hyphen-name"},
 			{Name: "q", Version: "0.2.5", Tag: "single-char-name"},
-			{Name: "django", Version: "4.2rc1", Tag: "prerelease"},
-			{Name: "pyyaml", Version: "1!6.0.post1", Tag: "epoch-post"},
+			{Name: "requests1", Version: "2.31.0", Tag: "name+version-concat-equals-plain"},
+			{Name: "pyyaml", Version: "1!6.0rc1.post1", Tag: "epoch-pre-post"},
 		},
 		dims: []dim{
 			{name: "eol", labels: eolLabels},
